@@ -261,7 +261,20 @@ void InterfacePayload::setData(const uint8_t* streamIds,
 bool InterfacePayload::isValidPayload(const uint8_t* data, const size_t size)
 {
     auto header = reinterpret_cast<const Header*>(data);
-    return (size >= sizeof(Header) && header->getInterfaceStatus() <= InterfaceStatus::disabled);
+    if (size < minPayloadSize || header->getInterfaceStatus() > InterfaceStatus::disabled)
+        return false;
+
+    // stream id count, stream ids padded to an even count, vendor data length, vendor data
+    size_t offset = sizeof(Header);
+    size_t count = (static_cast<size_t>(data[offset]) << 8) | data[offset + 1];
+    count += count % 2;
+    offset += sizeof(uint16_t);
+    if (size - offset < count + sizeof(uint16_t))
+        return false;
+    offset += count;
+    const size_t vendorDataLength = (static_cast<size_t>(data[offset]) << 8) | data[offset + 1];
+    offset += sizeof(uint16_t);
+    return size - offset >= vendorDataLength;
 }
 
 const InterfacePayload::Header* InterfacePayload::getHeader() const
